@@ -72,13 +72,18 @@ nodeLoop:
 			}
 
 			skip := false
-			ast.Inspect(item.Body, func(node ast.Node) bool {
+			hasBranch := func(node ast.Node) bool {
 				if branch, ok := node.(*ast.BranchStmt); ok && branch.Tok != token.GOTO {
 					skip = true
 					return false
 				}
 				return true
-			})
+			}
+			ast.Inspect(item.Body, hasBranch)
+			if els, ok := item.Else.(*ast.BlockStmt); ok {
+				// the final else becomes the default clause, where break means something else, too
+				ast.Inspect(els, hasBranch)
+			}
 			if skip {
 				continue nodeLoop
 			}
